@@ -8,6 +8,19 @@
 #ifndef C04_HANDLER_H
 #define C04_HANDLER_H
 
+/* exactly n accessible bytes: for n == 0 a pointer one past a 1-byte allocation, so that ANY access is reported */
+static uint8_t* c04_exact_alloc(size_t n, void** base)
+{
+    *base = malloc(n ? n : 1);
+    return n ? (uint8_t*) *base : ((uint8_t*) *base) + 1;
+}
+static uint8_t* c04_exact_copy(const uint8_t* src, size_t n, void** base)
+{
+    uint8_t* p = c04_exact_alloc(n, base);
+    if (n) { memcpy(p, src, n); }
+    return p;
+}
+
 static const char* c04_token(const char* s, char* out, size_t cap)
 {
     while (*s == ' ') { s++; }
@@ -38,19 +51,25 @@ static const char* c04_token(const char* s, char* out, size_t cap)
                 first[sp - rest] = 0;                                                                                 \
                 uint8_t* a = NULL;                                                                                    \
                 const size_t na = hex_decode(first, &a);                                                              \
+                void* abase = NULL;                                                                                   \
+                uint8_t* ax = c04_exact_copy(a, na, &abase);                                                          \
                 size_t sa = na;                                                                                       \
-                (void) T##_deserialize_(o2, a, &sa);                                                                  \
+                (void) T##_deserialize_(o2, ax, &sa);                                                                 \
+                free(abase);                                                                                          \
                 free(a);                                                                                              \
                 free(first);                                                                                          \
                 rest = sp + 1;                                                                                        \
             }                                                                                                         \
             uint8_t* in = NULL;                                                                                       \
             const size_t n = hex_decode(rest, &in);                                                                   \
+            void* inbase = NULL;                                                                                      \
+            uint8_t* inx = c04_exact_copy(in, n, &inbase);                                                            \
             size_t sz = n;                                                                                            \
-            const int rc = T##_deserialize_(o2, in, &sz);                                                             \
+            const int rc = T##_deserialize_(o2, inx, &sz);                                                            \
             if (rc < 0) { o_str(err_name(rc)); }                                                                      \
             else { o_str("ok"); dump_##T(o2); o_u64(sz); }                                                            \
             free(o2);                                                                                                 \
+            free(inbase);                                                                                             \
             free(in);                                                                                                 \
             return 1;                                                                                                 \
         }                                                                                                             \
@@ -61,14 +80,15 @@ static const char* c04_token(const char* s, char* out, size_t cap)
             parse_##T(&p, obj);                                                                                       \
             const size_t cap = (size_t) p_u64(&p);                                                                    \
             if (p.err) { free(obj); return 0; }                                                                       \
-            uint8_t* buf = (uint8_t*) malloc(cap);                                                                    \
+            void* bufbase = NULL;                                                                                     \
+            uint8_t* buf = c04_exact_alloc(cap, &bufbase);                                                            \
             if (cap) { memset(buf, 0x55, cap); }                                                                      \
             size_t size = cap;                                                                                        \
             const int rc = T##_serialize_(obj, buf, &size);                                                           \
             if (rc < 0) { o_str(err_name(rc)); }                                                                      \
             else if (size > cap) { o_str("err:size-above-capacity"); }                                                \
             else { o_str("ok"); o_hex(buf, size); }                                                                   \
-            free(buf);                                                                                                \
+            free(bufbase);                                                                                            \
             free(obj);                                                                                                \
             return 1;                                                                                                 \
         }                                                                                                             \
